@@ -4,6 +4,7 @@ package main
 
 import (
 	"fmt"
+	"go/token"
 	"go/types"
 	"math/big"
 	"sort"
@@ -371,11 +372,23 @@ func (x *Exec) specUnary(env *SpecEnv, n *EUnary) TV {
 func (x *Exec) specBinary(env *SpecEnv, n *EBinary) TV {
 	switch n.Op {
 	case "&&":
-		return mkSpecBool(And(x.specBool(env, n.X), x.specBool(env, n.Y)))
+		l := x.specBool(env, n.X)
+		if l.IsConst && !l.BoolVal {
+			return mkSpecBool(TFalse) // short-circuit: the right operand may be undefined here
+		}
+		return mkSpecBool(And(l, x.specBool(env, n.Y)))
 	case "||":
-		return mkSpecBool(Or(x.specBool(env, n.X), x.specBool(env, n.Y)))
+		l := x.specBool(env, n.X)
+		if l.IsConst && l.BoolVal {
+			return mkSpecBool(TTrue)
+		}
+		return mkSpecBool(Or(l, x.specBool(env, n.Y)))
 	case "==>":
-		return mkSpecBool(Implies(x.specBool(env, n.X), x.specBool(env, n.Y)))
+		l := x.specBool(env, n.X)
+		if l.IsConst && !l.BoolVal {
+			return mkSpecBool(TTrue)
+		}
+		return mkSpecBool(Implies(l, x.specBool(env, n.Y)))
 	case "<==>":
 		return mkSpecBool(Eq(x.specBool(env, n.X), x.specBool(env, n.Y)))
 	case "in":
@@ -455,6 +468,17 @@ func (x *Exec) specBinary(env *SpecEnv, n *EBinary) TV {
 			na.t = BVBin("bvlshr", na.t, amt)
 		}
 		return numTV(na)
+	}
+	// floating point comparisons and arithmetic
+	if fa, ok := a.V.(*Term); ok && fa.Sort.K == KFP64 {
+		if fb, ok := b.V.(*Term); ok && fb.Sort.K == KFP64 {
+			tok := map[string]token.Token{"<": token.LSS, "<=": token.LEQ, ">": token.GTR, ">=": token.GEQ, "+": token.ADD, "-": token.SUB, "*": token.MUL, "/": token.QUO}[n.Op]
+			r := x.fpBinop(tok, fa, fb).(*Term)
+			if r.Sort.K == KBool {
+				return mkSpecBool(r)
+			}
+			return TV{r, types.Typ[types.Float64]}
+		}
 	}
 	na, nb := x.unifyNum(a, b, n.Op)
 	if na.kind == "int" {
@@ -553,6 +577,11 @@ func (x *Exec) specEq(env *SpecEnv, a, b TV) *Term {
 		}
 		return And(Eq(av.Tag, bv.Tag), Eq(av.Ref, bv.Ref))
 	case *PtrV:
+		if bs, ok := b.V.(*StructV); ok {
+			if _, isS := av.Elem.Underlying().(*types.Struct); isS {
+				return x.structEq(x.Load(env.state(), av).(*StructV), bs)
+			}
+		}
 		bv, ok := b.V.(*PtrV)
 		if !ok {
 			specFail("pointer compared with %T", b.V)
@@ -566,7 +595,20 @@ func (x *Exec) specEq(env *SpecEnv, a, b TV) *Term {
 		}
 		return And(Eq(av.Base, bv.Base), Eq(av.Off, bv.Off), Eq(av.Len, bv.Len))
 	case *StructV:
+		if bp, ok := b.V.(*PtrV); ok {
+			// a struct-typed field selected lazily (pointer to the embedded struct): compare values
+			if _, isS := bp.Elem.Underlying().(*types.Struct); isS {
+				return x.structEq(av, x.Load(env.state(), bp).(*StructV))
+			}
+		}
 		return x.structEq(av, b.V.(*StructV))
+	}
+	if ap, ok := a.V.(*PtrV); ok {
+		if bs, ok := b.V.(*StructV); ok {
+			if _, isS := ap.Elem.Underlying().(*types.Struct); isS {
+				return x.structEq(x.Load(env.state(), ap).(*StructV), bs)
+			}
+		}
 	}
 	// booleans / strings / tags / seqs
 	if at, ok := a.V.(*Term); ok && at.Sort.K != KBV {
@@ -667,7 +709,9 @@ func (x *Exec) selectField(env *SpecEnv, base TV, sel string) TV {
 		fp := x.fieldAddr(st, v, idx)
 		if _, isS := f.Type().Underlying().(*types.Struct); isS {
 			// keep as pointer to embedded struct so further selection works lazily
-			return TV{fp, types.NewPointer(f.Type())}
+			lp := *fp
+			lp.LazyStruct = true
+			return TV{&lp, types.NewPointer(f.Type())}
 		}
 		return TV{x.Load(st, fp), f.Type()}
 	case *StructV:
@@ -885,7 +929,16 @@ func (x *Exec) specQuant(env *SpecEnv, n *EQuant) TV {
 	for _, v := range n.Vars {
 		s, t, kind := x.specSortOf(env, v.Type)
 		if kind == "composite" {
-			specFail("quantified variable of composite type %s", v.Type)
+			// one bound variable per component (interfaces: tag and ref; slices: base/off/len/cap)
+			var ts []*Term
+			for _, c := range x.compsOf(t) {
+				bc := x.freshBound(v.Name+c.suffix, c.sort)
+				binders = append(binders, fmt.Sprintf("(%s %s)", bc.S, c.sort.String()))
+				ts = append(ts, bc)
+			}
+			val, _ := x.unflatten(t, ts)
+			sub.names[v.Name] = TV{val, t}
+			continue
 		}
 		b := x.freshBound(v.Name, s)
 		binders = append(binders, fmt.Sprintf("(%s %s)", b.S, s.String()))
@@ -946,7 +999,12 @@ func (x *Exec) specCall(env *SpecEnv, n *ECall) TV {
 	case "old":
 		sub := *env
 		sub.inOld = true
-		return x.evalSpec(&sub, n.Args[0])
+		r := x.evalSpec(&sub, n.Args[0])
+		if p, ok := r.V.(*PtrV); ok && p.LazyStruct {
+			// a struct-typed field: take its value in the old state now, not when it is used
+			return TV{x.Load(sub.state(), p), p.Elem}
+		}
+		return r
 	case "len":
 		a := arg(0)
 		switch v := a.V.(type) {
@@ -986,6 +1044,18 @@ func (x *Exec) specCall(env *SpecEnv, n *ECall) TV {
 		return mkSpecInt(BV2Nat(ni.t))
 	case "Z": // value as Int respecting signedness
 		return mkSpecInt(x.toMathInt(arg(0)))
+	case "isnan":
+		a := arg(0)
+		ft, ok := a.V.(*Term)
+		if !ok || ft.Sort.K != KFP64 {
+			specFail("isnan() needs a float64")
+		}
+		return mkSpecBool(App("fp.isNaN", SBool, ft))
+	case "natseq": // the big-endian natural number encoded by a byte sequence (as big.Int.SetBytes)
+		s := x.specSeq(arg(0))
+		v := x.D.Fun("natOfSeq", SInt, s)
+		st.Assume(IntCmp(">=", v, IntConstI(0)))
+		return mkSpecInt(v)
 	case "gf": // ghost field of an object: gf(ptr, name) : int
 		a := arg(0)
 		p, ok := a.V.(*PtrV)
@@ -1060,15 +1130,56 @@ func (x *Exec) specCall(env *SpecEnv, n *ECall) TV {
 		na.t = Ite(c, na.t, nb.t)
 		return numTV(na)
 	case "called": // callback target was invoked on this path
-		s := n.Args[0].exprString()
+		s := nameArg(n.Args[0])
 		for k := range st.ghost {
 			if strings.HasPrefix(k, "$called:") && matchTarget(s, k[8:]) {
 				return mkSpecBool(TTrue)
 			}
+			if strings.HasPrefix(k, "$call:") && matchTarget(s, k[6:]) {
+				return mkSpecBool(TTrue)
+			}
 		}
 		return mkSpecBool(TFalse)
+	case "callres", "callarg": // result / i-th argument of the last call of F made by this function (attr trackcalls)
+		s := nameArg(n.Args[0])
+		var rec *callRecord
+		for k, v := range st.ghost {
+			if strings.HasPrefix(k, "$call:") && matchTarget(s, k[6:]) {
+				rec = v.(*callRecord)
+			}
+		}
+		if rec == nil {
+			// not called on this path: an unconstrained value would be unsound to reason about, so the
+			// clause must be guarded by called(F); evaluate to a fresh value of a dummy sort
+			specFail("%s(%s): no such call on this path (guard the clause with called(%s))", name, s, s)
+		}
+		if name == "callres" {
+			if tup, ok := rec.rt.(*types.Tuple); ok {
+				idx := 0
+				if len(n.Args) > 1 {
+					if c, ok := isConstTV(arg(1)); ok {
+						idx = int(c.Int64())
+					}
+				}
+				return TV{rec.res.(*TupleV).Elems[idx], tup.At(idx).Type()}
+			}
+			return TV{rec.res, rec.rt}
+		}
+		c, ok := isConstTV(arg(1))
+		if !ok {
+			specFail("callarg(F, i): i must be a constant")
+		}
+		i := int(c.Int64())
+		off := 0
+		if rec.sig.Recv() != nil {
+			if i == 0 {
+				return TV{rec.args[0], rec.sig.Recv().Type()}
+			}
+			off = 1
+		}
+		return TV{rec.args[i], rec.sig.Params().At(i - off).Type()}
 	case "sent":
-		s := n.Args[0].exprString()
+		s := nameArg(n.Args[0])
 		for k := range st.ghost {
 			if strings.HasPrefix(k, "$sent:") && matchTarget(s, k[6:]) {
 				return mkSpecBool(TTrue)
